@@ -893,13 +893,24 @@ func ruleBackExt(c *Ctx) {
 		c.check(okB, key+":range", call.Pos(), "backward range = min(pending literals i − cursor, j)",
 			"the backward extension does not cover min(pending literals, source position) bytes: "+detail+"; a literal equal to the byte Offset before it can be left in front of the match")
 		// executed whenever literals are pending
+		// skipped only when there is nothing to extend over: each extra guard of the call, when it
+		// fails, implies pending ≤ 0 or source position ≤ 0 (the range min(pending, j) is empty)
 		extraC := condsMinus(fi.condsAt(call.Block()), fi.condsAt(e.Block))
-		okX := len(extraC) == 1
-		if okX {
-			f := fi.factsOf(extraC)
-			okX = len(f) == 1 && f[0].Op == LE && f[0].L.eq(pend.scale(-1).addc(1))
+		okX := true
+		for _, cd := range extraC {
+			nf := fi.factsOf([]Cond{{cd.V, !cd.True}})
+			if len(nf) != 1 || nf[0].Op != LE {
+				okX = false
+				break
+			}
+			for _, cs := range fi.topCases(nf[0].L, call.Block()) {
+				extra := append(append([]Fact{}, cs.Eqs...), Fact{cs.L, LE})
+				if !(fi.proveLE0(pend, cs.Conds, extra, map[string]bool{}, 0) || fi.proveLE0(j, cs.Conds, extra, map[string]bool{}, 0)) {
+					okX = false
+				}
+			}
 		}
-		c.check(okX, key+":when", call.Pos(), "executed exactly when literals are pending (i − cursor > 0)",
+		c.check(okX, key+":when", call.Pos(), "executed whenever there is something to extend over (skipped only if i − cursor ≤ 0 or the source position is 0)",
 			"the backward extension is not executed exactly when i − cursor > 0")
 		// H = P − mb, MatchLen includes + mb
 		mb := fi.lin(call)
